@@ -157,10 +157,17 @@ def line_number_of(model, w):
         return None
 
 
+_reader_memo = {}     # results are read-only: one exploration per (tree, reader, scenario) and run
+
+
 def explore_reader(model, cls, nlines=3, max_paths=4000, prev_marker=False, active=None, skip=0):
     """All paths of cls.read(FileWrapper(lines, start_line=S)); yields (nested calls, result, cursor)."""
+    key = (id(model), cls.qualname, nlines, max_paths, skip, tuple(getattr(c, 'qualname', repr(c)) for c in active) if active is not None else None)
+    if key in _reader_memo:
+        return _reader_memo[key]
     fw = model.cls('block_tokenizer.FileWrapper')
     out = []
+    _reader_memo[key] = out
     hit = fw.lookup('__next__')
     nx = hit[1] if hit is not None and hit[0] == 'method' else None
 
